@@ -4,6 +4,7 @@ import (
 	"fmt"
 	"os"
 	"runtime"
+	"strconv"
 	"strings"
 	"sync"
 	"unicode"
@@ -431,6 +432,12 @@ func Run(pl Plan) {
 	var mu sync.Mutex
 	sum := Summary{ByKind: map[string]int{}, ByClass: map[string]int{}, OptRows: len(rows), OptAll: len(all)}
 	emitted := 0
+	seenClassInput := map[string]bool{}
+	classInputs := map[string]int{}
+	classCap := 60
+	if v, err := strconv.Atoi(os.Getenv("HXFMT_CLASS_INPUTS")); err == nil && v > 0 {
+		classCap = v
+	}
 	var wg sync.WaitGroup
 	for w := 0; w < pl.J; w++ {
 		wg.Add(1)
@@ -505,8 +512,15 @@ func Run(pl Plan) {
 						k = "UNCLASSIFIED:" + f.Clause
 					}
 					sum.ByClass[k]++
-					// bound the output: at most 40 lines per class, all unclassified up to 400
-					if (f.Class != "" && sum.ByClass[k] <= 40) || (f.Class == "" && emitted < 400) {
+					// bound the output: per class the first failure of each of at most 60 distinct inputs
+					// (HXFMT_CLASS_INPUTS overrides, for exploration), all unclassified up to 400
+					first := false
+					if f.Class != "" && !seenClassInput[k+"\x00"+f.ID] && classInputs[k] < classCap {
+						seenClassInput[k+"\x00"+f.ID] = true
+						classInputs[k]++
+						first = true
+					}
+					if first || (f.Class == "" && emitted < 400) {
 						hx.Emit(f)
 						if f.Class == "" {
 							emitted++
